@@ -281,3 +281,27 @@ Proof.
   cbn [bk_per new_bucket].
   replace ((burst - burst) * per) with 0 by lia. lia.
 Qed.
+
+(* ---- the server model's send budget is the rate-0 bucket ----
+   model/Server.v keeps `s_budget = Some n`: one token per rated write, never refilled (the
+   correspondence harness runs the real server with rate.NewLimiter(0, n)).  That counter and the
+   rate-0 bucket holding n tokens grant and deny alike, at every time. *)
+Definition budget_take (n : N) : N * bool :=
+  match n with 0%N => (0%N, false) | _ => (N.pred n, true) end.
+
+Theorem zero_rate_is_counter per burst last n now :
+  0 < per -> Z.of_N n <= burst ->
+  allow (mkBucket 0 per burst (Z.of_N n * per) last) now =
+  (mkBucket 0 per burst (Z.of_N (fst (budget_take n)) * per) (Z.max last now), snd (budget_take n)).
+Proof.
+  intros Hp Hn. unfold allow, refill, bk_cap. cbn [bk_tokens bk_per bk_burst bk_level bk_last].
+  rewrite Z.mul_0_r, Z.add_0_r.
+  assert (Hle : Z.of_N n * per <= burst * per) by (apply Z.mul_le_mono_nonneg_r; lia).
+  rewrite Z.min_r by exact Hle.
+  destruct n as [|p].
+  - cbn [budget_take fst snd]. replace (Z.leb per (Z.of_N 0 * per)) with false by (symmetry; apply Z.leb_gt; lia).
+    reflexivity.
+  - assert (H1 : 1 * per <= Z.of_N (N.pos p) * per) by (apply Z.mul_le_mono_nonneg_r; lia).
+    replace (Z.leb per (Z.of_N (N.pos p) * per)) with true by (symmetry; apply Z.leb_le; lia).
+    unfold budget_take. cbn [fst snd]. f_equal. f_equal. rewrite N2Z.inj_pred by lia. lia.
+Qed.
